@@ -147,7 +147,21 @@ func (n *CNode) walk(f func(n *CNode) bool) {
 }
 
 // LoadC parses the C units of lib/runtime (and optionally lib/stdlib) with clang.
+var cProgCache = map[string]*CProgram{}
+
 func LoadC(repo string, withStdlib bool) (*CProgram, error) {
+	ck := fmt.Sprint(repo, withStdlib)
+	if p, ok := cProgCache[ck]; ok {
+		return p, nil
+	}
+	P, err := loadC(repo, withStdlib)
+	if err == nil {
+		cProgCache[ck] = P
+	}
+	return P, err
+}
+
+func loadC(repo string, withStdlib bool) (*CProgram, error) {
 	P := &CProgram{Funcs: map[string]*CFunc{}, Protos: map[string]*CFunc{}, Structs: map[string][]CField{}, Macros: map[string]string{}}
 	type unit struct{ file, inc string }
 	var units []unit
